@@ -170,7 +170,7 @@ func funcArrayPush(ctx *Context, this *VMValue, params []*VMValue) *VMValue {
 func funcDictKeys(ctx *Context, this *VMValue, params []*VMValue) *VMValue {
 	d := this.MustReadDictData()
 	var arr []*VMValue
-	d.Dict.Range(func(key string, value *VMValue) bool {
+	d.Dict.rangeSorted(func(key string, value *VMValue) bool {
 		arr = append(arr, NewStrVal(key))
 		return true
 	})
@@ -180,7 +180,7 @@ func funcDictKeys(ctx *Context, this *VMValue, params []*VMValue) *VMValue {
 func funcDictValues(ctx *Context, this *VMValue, params []*VMValue) *VMValue {
 	d := this.MustReadDictData()
 	var arr []*VMValue
-	d.Dict.Range(func(key string, value *VMValue) bool {
+	d.Dict.rangeSorted(func(key string, value *VMValue) bool {
 		arr = append(arr, value)
 		return true
 	})
@@ -190,7 +190,7 @@ func funcDictValues(ctx *Context, this *VMValue, params []*VMValue) *VMValue {
 func funcDictItems(ctx *Context, this *VMValue, params []*VMValue) *VMValue {
 	d := this.MustReadDictData()
 	var arr []*VMValue
-	d.Dict.Range(func(key string, value *VMValue) bool {
+	d.Dict.rangeSorted(func(key string, value *VMValue) bool {
 		arr = append(arr, NewArrayVal(NewStrVal(key), value))
 		return true
 	})
